@@ -115,10 +115,10 @@ Print Assumptions C10_no_panic_partial.
 (* The monitor that Corr_C10.judge applies to the implementation's observations accepts the model's
    own prediction on every input: always for the repaired model, and for today's model except on
    the signature of C10-K1 (where it answers 101 = known finding 1). *)
-Theorem C10_monitor_accepts_model : forall lc prov cd tok ui tab errp later,
+Theorem C10_monitor_accepts_model : forall lc tag prov cd tok ui tab errp later,
   later_ok later = true -> oracle_miss tab tok = false ->
-  judge_lc lc (model_case lc prov cd tok ui tab errp later) = 0 \/
-  (judge_lc lc (model_case lc prov cd tok ui tab errp later) = 101 /\ lc = false /\ k1_signature prov cd tok = true).
+  judge_lc lc (model_case lc tag prov cd tok ui tab errp later) = 0 \/
+  (judge_lc lc (model_case lc tag prov cd tok ui tab errp later) = 101 /\ lc = false /\ k1_signature prov cd tok = true).
 Proof. exact judge_accepts_model. Qed.
 Print Assumptions C10_monitor_accepts_model.
 
